@@ -153,6 +153,25 @@ CHECKS = {
         note="Addresses below 128.0.0.0 only (32-bit signed TLC integers); blocks minted in network-address form as the "
              "handler's CIDR parsing yields.",
         ref="DESIGN.md 4 C11"),
+    "C05": dict(
+        module="KMSession",
+        technique="TLA+ session/2FA state machine: TLC exhaustive per mechanism family with symmetry (+ as-built negative "
+                  "controls) ; TLC-simulated request sequences and the controls' counterexamples replayed on the real "
+                  "handlers with fakes ; TLC trace monitor with named guards and ground-truth FactorGain",
+        text="KMSession models three browser sessions of two users, VIP OTP / push (start, device approval, poll), Okta push, "
+             "local TOTP with step arithmetic, U2F begin/finish, bootstrap OTP, CLI tokens, logout, time passing and expiry, "
+             "with an adversary attaching any certificate/cookie pair and any value to any request. TLC checks FactorGain, "
+             "SubjectStable, TotpNeverReplayed, Consumed and ExpiredNeverWorks exhaustively per family (3 sessions) and, in "
+             "thorough, for all families together (2 sessions); four as-built flags must each make TLC produce the attack "
+             "(non-vacuity), and those counterexamples are replayed on the code. TLC simulation of the request generator "
+             "(granted and refused attempts) yields 230 (quick) / 2250 (thorough) behaviours executed against the real "
+             "handlers with a VIP fake, software U2F tokens and real TOTP secrets; the TLC monitor evaluates the action's "
+             "requirement guards on the specification state and, independently, FactorGain against what the fakes report "
+             "was really proven.",
+        note="Okta push is specified and model-checked but its handlers are not driven yet (needs the Okta fake as password "
+             "backend); WebAuthn finish shares the U2F challenge path and is driven through /u2f/SignResponse only. Time is "
+             "advanced by ageing stored state.",
+        ref="DESIGN.md 4 C05"),
 }
 PENDING_REASON = "check not built yet in this session (specification module planned in DESIGN.md section 4); not claimed until its check runs clean on the unchanged tree"
 ALL = ["C%02d" % i for i in range(1, 21)]
